@@ -307,19 +307,36 @@ def run(chk):
         oks &= "k" in ckw and term_of(ckw["k"]) in gk_results
         oks &= term_of(ckw.get("allow_truncate")) == ("param", "allow_truncate")
     chk.ob("R04.4", "sign_digest(digest, k = generate_k(...), allow_truncate = caller's)", oks, loc=q2, key="C04|R04.4|sign_digest-args", detail="sign_digest is not called with the same digest, the RFC 6979 nonce and the caller's allow_truncate")
-    # retry handler (AST)
+    # retry handler (AST).  Two idioms give "attempt i calls generate_k with retry_gen = i":
+    #   A  c = 0; while True: ... generate_k(.., c, ..) ...; try: <sign> ; break  except RSZeroError: c += 1
+    #   B  for c in count(): ... generate_k(.., c, ..) ...; try: <sign>  except RSZeroError: continue ; break
     okh = False
+    gkparam = W.p.func("rfc6979:generate_k").params[4]
+
+    def feeds(cnt):
+        return any(isinstance(x, ast.keyword) and x.arg == gkparam and _name(x.value) == cnt for x in ast.walk(f2.node)) or \
+            any(isinstance(x, ast.Call) and _callee(x) == "rfc6979.generate_k" and len(x.args) > 4 and _name(x.args[4]) == cnt for x in ast.walk(f2.node))
     for n in ast.walk(f2.node):
         if isinstance(n, ast.Try) and any(isinstance(x, ast.Call) and _callee(x) in ("self.sign_digest",) for x in ast.walk(n)):
             hs = n.handlers
             if len(hs) == 1 and isinstance(hs[0].type, ast.Name) and hs[0].type.id == "RSZeroError" and len(hs[0].body) == 1:
                 b = hs[0].body[0]
                 ub = as_update(b)
-                okh = ub is not None and ub[1] is ast.Add and isinstance(ub[2], ast.Constant) and ub[2].value == 1
-                cnt = _name(ub[0]) if okh else None
-                # the same counter is what generate_k receives
-                okh &= any(isinstance(x, ast.keyword) and x.arg == W.p.func("rfc6979:generate_k").params[4] and _name(x.value) == cnt for x in ast.walk(f2.node)) or \
-                    any(isinstance(x, ast.Call) and _callee(x) == "rfc6979.generate_k" and len(x.args) > 4 and _name(x.args[4]) == cnt for x in ast.walk(f2.node))
+                if ub is not None and ub[1] is ast.Add and isinstance(ub[2], ast.Constant) and ub[2].value == 1:
+                    # idiom A: counter initialised to 0 before the loop
+                    cnt = _name(ub[0])
+                    init0 = any(isinstance(x, ast.Assign) and _name(x.targets[0]) == cnt and isinstance(x.value, ast.Constant) and x.value.value == 0 and x.lineno < n.lineno for x in ast.walk(f2.node))
+                    okh = feeds(cnt) and init0
+                elif isinstance(b, (ast.Continue, ast.Pass)):
+                    # idiom B: the enclosing loop is `for c in count()` and the statement after the try leaves it
+                    for lp in ast.walk(f2.node):
+                        if isinstance(lp, ast.For) and n in lp.body and isinstance(lp.target, ast.Name) and isinstance(lp.iter, ast.Call) and _callee(lp.iter) in ("count", "itertools.count") \
+                                and (not lp.iter.args or (isinstance(lp.iter.args[0], ast.Constant) and lp.iter.args[0].value == 0)) and not lp.iter.keywords:
+                            after = lp.body[lp.body.index(n) + 1:]
+                            leaves = (isinstance(b, ast.Continue) and len(after) == 1 and isinstance(after[0], ast.Break)) or \
+                                (len(n.orelse) == 1 and isinstance(n.orelse[0], ast.Break) and not after) or \
+                                (isinstance(n.body[-1], ast.Break) and not after)
+                            okh = feeds(lp.target.id) and leaves
     chk.ob("R04.4", "retry loop catches exactly RSZeroError and increments the retry counter by 1", okh, loc=q2, key="C04|R04.4|handler", detail="the retry handler is not `except RSZeroError: counter += 1` feeding generate_k")
     # final encoding by the caller's sigencode
     okr = bool(it.watch_returns[q2]) and all(isinstance(v, VSym) and v.t[0] == "ucall" and v.t[1] == ("param", "sigencode") for v, _s in it.watch_returns[q2])
